@@ -13,7 +13,7 @@ from vlib import core, pipeline as P, diffrun, sanitize
 from vgen import gen as G, gen2 as G2, emit as E, corpus, byods as B
 
 LEVEL = 'exploration'
-POOLS = [0, 1, 2, 3, 8, 16]
+POOLS = [0, 1, 2, 3, 5, 6, 8, 16]      # 0 = the global pool; 3, 5, 6 do not divide the power-of-two shard counts
 
 
 def sizes(ctx):
@@ -113,7 +113,7 @@ def run(ctx, only=None):
         cases = [c for c in cases if c.name == only]
     ctx.rule = ('corpus + random programs (no-index cross products, partial / full indices, lattices, aggregates, binary eqrel) as ascent!, ascent_par!, ascent_par!+inter_rule_parallelism. '
                 '(a) groups of 2-16 instances of the same or of different generated types started on a barrier on separate OS threads, parallel ones inside their own pools; '
-                '(b) construct in pool A, run in pool B, (add facts,) run in pool C for A,B,C in {global,1,2,3,8,16}, grouped into one OS process per A so that the first pool the '
+                '(b) construct in pool A, run in pool B, (add facts,) run in pool C for A,B,C in {global,1,2,3,5,6,8,16}, grouped into one OS process per A so that the first pool the '
                 'process sees (which fixes the shard count of the concurrent indices) varies; (c) the run pool entered from inside a worker of an outer pool. '
                 'Oracle: every instance equals the reference on its own facts. case = one instance execution; non-trivial = reference non-trivial; distinct = distinct (variant, input, scenario)')
     ctx.assumptions = ['reference evaluator', 'statistics counters (static mut timing totals) are outside the property: they never feed back into evaluation']
